@@ -8,6 +8,7 @@ import (
 	"encoding/hex"
 	"encoding/json"
 	"fmt"
+	"io"
 	"os"
 	"os/exec"
 	"path/filepath"
@@ -41,6 +42,7 @@ type histOp struct {
 	Flags  uint32          `json:"flags"`
 	NNP    bool            `json:"nnp"`
 	Events []probeEv       `json:"events,omitempty"`
+	Staged bool            `json:"staged,omitempty"` // the policy value is first assembled / dumped in an earlier shape, then completed, then loaded
 }
 
 type histScript struct {
@@ -226,6 +228,25 @@ func childHist(args []string) {
 					}
 					res.Compiled, res.CompLen = hashSock(sf), len(sf)
 				}
+			}
+			if op.Staged {
+				// the same policy VALUE is used in an earlier shape first (one group less, another default action): whatever the
+				// library remembers inside the value must not survive the modification
+				staged := *pol
+				final := pol.Syscalls
+				if len(final) > 1 {
+					staged.Syscalls = final[:len(final)-1]
+				}
+				if staged.DefaultAction == seccomp.ActionAllow {
+					staged.DefaultAction = seccomp.ActionLog
+				} else {
+					staged.DefaultAction = seccomp.ActionAllow
+				}
+				staged.Assemble()
+				staged.Dump(io.Discard)
+				staged.Syscalls = final
+				staged.DefaultAction = pol.DefaultAction
+				pol = &staged
 			}
 			seams = nil
 			run(op.T, func() {
